@@ -64,7 +64,9 @@ def write_config(A, fname, section, syntax, rng):
             ents.append([fname, [lines[1].replace(A["version"], "{version}")] + A["self_extra"]])        # spelled like the line it has to match, plus further patterns
         for path, pats in ents:
             lines.append("%s =" % path)
-            for p in pats:
+            for k, p in enumerate(pats):
+                if k > 0 and rng.random() < 0.25:
+                    lines.append("")                      # a blank line between two patterns of one file: layout, not meaning
                 lines.append("    " + p)
         cvline = lines[1]
     else:
@@ -87,7 +89,10 @@ def write_config(A, fname, section, syntax, rng):
         if A["self_explicit"]:
             ents.append([fname, ['current_version = "{version}"'] + A["self_extra"]])
         for path, pats in ents:
-            lines.append('%s = [%s]' % (project.toml_str(path), ", ".join(project.toml_str(p) for p in pats)))
+            if len(pats) > 1 and rng.random() < 0.25:       # the array over several lines, with a blank line in it
+                lines.append('%s = [\n    %s,\n]' % (project.toml_str(path), ",\n\n    ".join(project.toml_str(p) for p in pats)))
+            else:
+                lines.append('%s = [%s]' % (project.toml_str(path), ", ".join(project.toml_str(p) for p in pats)))
         cvline = lines[1]
     # what precedes the section: nothing, a comment, or sections of OTHER tools (bump2version's [bumpversion] with a current_version line of its own, [tool.black], ...)
     if syntax == "cfg":
